@@ -28,7 +28,7 @@
    decided by the edit-history correspondence of harness/props/c19.py. *)
 From Coq Require Import ZArith List Bool Arith.
 From PyecoreV Require Import Lib.PyBase Lib.PyList Model.Kernel Model.MetaViews Proofs.C19Proofs
-     Proofs.WFBase Proofs.C19Once.
+     Proofs.WFBase Proofs.C19Once Proofs.C01Full Proofs.OwnAll Proofs.WFCorollaries.
 Import ListNotations.
 
 Theorem C19_econtents_are_the_containment_slots :
@@ -175,3 +175,16 @@ Example C19_exactly_once_witness :
   eallcontents (S (length (ocls once_mm))) once_mm once_state 0 = [1; 2].
 Proof. exact once_witness. Qed.
 Print Assumptions C19_exactly_once_witness.
+
+(* ---------- in every reachable state (premises own_ok / shape2 discharged by the global invariant) ---------- *)
+Theorem C19_econtents_exactly_once_in_every_reachable_state :
+  forall m, wf_mm m -> ref_defaults_none m -> forall ops, Forall (op_many m) ops ->
+  forall o, NoDup (econtents m (reach m ops) o).
+Proof. exact reach_econtents_NoDup. Qed.
+Print Assumptions C19_econtents_exactly_once_in_every_reachable_state.
+
+Theorem C19_eallcontents_exactly_once_in_every_acyclic_reachable_state :
+  forall m, wf_mm m -> ref_defaults_none m -> forall ops, Forall (op_many m) ops ->
+  forall fuel o, acyclic_cont (reach m ops) -> NoDup (eallcontents fuel m (reach m ops) o).
+Proof. exact reach_eallcontents_NoDup. Qed.
+Print Assumptions C19_eallcontents_exactly_once_in_every_acyclic_reachable_state.
